@@ -13,3 +13,7 @@ open IrVerif.Device
 #print axioms C19_names_current
 #print axioms C19_roundtrip_legacy
 #print axioms C19_inline_remap
+#print axioms C19_inline_pass
+#print axioms C19_inline_pass_axes
+#print axioms C19_step_any
+#print axioms C19_history_any
